@@ -8,6 +8,8 @@
 //                        resolution is unchanged, but every fetch is logged (#R sysid base) and after `bound`
 //                        fetches the resolver throws -- a deterministic progress bound for the termination clause
 //             bound = max number of fetches (default 400)
+//   The parse runs on a fresh thread with a 2 MB stack: unbounded recursive inclusion then ends in a (sanitizer-reported)
+//   stack overflow after a few hundred levels instead of after minutes -- a deterministic signal, not a wall-clock one.
 //   response: CED dump of the resulting DOM (dumpDomNode) + ERR/EXC lines, then
 //             #DOCURI <documentURI>          #BASE <getBaseURI()> per element in document order (pre-order)
 //             #FETCH <n> <boundhit 0|1>      #R <sysid> <base> per resolver call (first 64)
@@ -72,10 +74,22 @@ static std::string hXinc(const Req& r) {
     return out;
 }
 
+#include <pthread.h>
+struct Job { const Req* r; std::string out; };
+static void* jobMain(void* p) { Job* j = (Job*)p; j->out = hXinc(*j->r); return 0; }
+static std::string hXincThread(const Req& r) {
+    Job j; j.r = &r;
+    pthread_attr_t at; pthread_attr_init(&at); pthread_attr_setstacksize(&at, (size_t)geti(r, "stackkb", 2048) * 1024);
+    pthread_t t;
+    if (pthread_create(&t, &at, jobMain, &j) != 0) return "EXC\tNOTHREAD\n";
+    pthread_join(t, 0); pthread_attr_destroy(&at);
+    return j.out;
+}
+
 int main() {
     XMLPlatformUtils::Initialize();
     std::map<std::string, Handler> hs;
-    hs["xinc"] = hXinc;
+    hs["xinc"] = hXincThread;
     int rc = serve(hs);
     XMLPlatformUtils::Terminate();
     return rc;
